@@ -111,7 +111,7 @@ func cmdCheck(args []string) int {
 	}
 	scratch, _ := os.MkdirTemp("", "govc-"+prop+"-")
 	defer os.RemoveAll(scratch)
-	timeout := 10
+	timeout := 25 // quick: no obligation of the unchanged tree needs more than a third of this on an idle machine (see coverage.slowest)
 	if *tier == "thorough" {
 		timeout = 120
 	}
@@ -473,7 +473,7 @@ func cmdCheck(args []string) int {
 			"obligations": len(all), "discharged": discharged,
 			"checker_cmd":              fmt.Sprintf("./check %s --tier %s", prop, *tier),
 			"trusted_base":             []string{"x/tools go/ssa v0.29.0", "govc symbolic executor and SMT encoding (/verif/govc)", "z3 5.1.0 (z3-new)", "cvc5 1.0.3", "z3 4.8.12", "/verif/spec/*.spec (transcribed from MODBUS Application Protocol V1.1b3 and MODBUS over Serial Line V1.02)"},
-			"functions_under_contract": fuc, "by_backend": byBackend, "solver_s": round2(solverS),
+			"functions_under_contract": fuc, "by_backend": byBackend, "solver_s": round2(solverS), "slowest": slowest(all, 8), "solver_timeout_s": timeout,
 			"return_sites_explored": paths, "covers_checked": coverChecked + anteChecked, "vacuity_failures": coverFail + vacuousClauses,
 			"known_findings": knownLines, "samples": samples,
 			"inlined_without_contract": sortedKeys(inlined), "contracts_used_at_call_sites": sortedKeys(used),
@@ -550,6 +550,25 @@ func runBounded(prop string, h boundedSpec, tier string, seed int64, repo, verif
 	return 0, nil
 }
 var structuralEvidence = []map[string]interface{}{}
+
+func slowest(all []*Obligation, n int) []map[string]interface{} {
+	idx := make([]*Obligation, 0, len(all))
+	for _, o := range all {
+		if o.Result != nil {
+			idx = append(idx, o)
+		}
+	}
+	sort.Slice(idx, func(i, j int) bool { return idx[i].Result.Seconds > idx[j].Result.Seconds })
+	var out []map[string]interface{}
+	for i := 0; i < n && i < len(idx); i++ {
+		nm := idx[i].Name
+		if len(nm) > 160 {
+			nm = nm[:160]
+		}
+		out = append(out, map[string]interface{}{"obligation": nm, "solver": idx[i].Result.Solver, "s": round2(idx[i].Result.Seconds)})
+	}
+	return out
+}
 
 func round2(f float64) float64 { return float64(int(f*100+0.5)) / 100 }
 
